@@ -534,6 +534,16 @@ def _value_is_observed_outside_nodes(
     )
 
 
+def _would_alias_graph_boundary(
+    graph: ir.Graph, removed_output: ir.Value, replacement: ir.Value
+) -> bool:
+    """Return whether forwarding a graph output to ``replacement`` would list
+    one value twice among the graph outputs."""
+    return _value_is_graph_output(graph, removed_output) and _value_is_graph_output(
+        graph, replacement
+    )
+
+
 def _known_integer_scalar(
     nodes: Sequence[ir.Node],
     value: ir.Value,
@@ -754,6 +764,8 @@ def remove_redundant_casts_ir(graph: ir.Graph) -> None:
                 continue
             src_val = src_input
             out_val = outs[0]
+            if _would_alias_graph_boundary(graph, out_val, src_val):
+                continue
             ir.convenience.replace_all_uses_with(
                 out_val, src_val, replace_graph_outputs=True
             )
@@ -2020,6 +2032,8 @@ def remove_identity_reshapes_ir(graph: ir.Graph) -> None:
             dst_val = outs[0]
             dst_dims = _value_dims(dst_val)
             if dst_dims is not None and not _shapes_match_exact(dst_dims, target_dims):
+                continue
+            if _would_alias_graph_boundary(graph, dst_val, data_val):
                 continue
             ir.convenience.replace_all_uses_with(
                 dst_val, data_val, replace_graph_outputs=True
